@@ -1401,3 +1401,58 @@ def _eval_bool(sv, env):
     if isinstance(sv, tuple) and sv[:1] == ("bool",):
         return _eval_bool(sv[1], env)
     return env[sv]
+
+
+def rule_dhp_extend_cursor(ctx, rid, reason):
+    """DHP retired array: the write cursor may jump to a freshly appended block only from the end of the current block; after scan() compacted
+    the survivors the cursor stands inside the old blocks, and every cell it would skip still holds a stale (disposed or moved) pointer that the
+    next scan would dispose again"""
+    from sa.pathsim import PathSim
+    from sa.q import cond_atoms, sv_field_path
+    E = ctx.need("cds::gc::dhp::retired_array::extend")[0]
+
+    def at_end_atom(atom):
+        if not (isinstance(atom, tuple) and atom[:2] == ("op", "==")):
+            return None
+        a, b = atom[2], atom[3]
+        for x, y in ((a, b), (b, a)):
+            if sv_field_path(x)[-1:] == ["current_cell_"] and isinstance(y, tuple) and y[:1] == ("call",) and str(y[1]).endswith("retired_block::last"):
+                return x
+        return None
+    moves = 0
+    unguarded = []
+    for p in PathSim(E, bound=256).run():
+        ev = p.events
+        for i, e in enumerate(ev):
+            if e.kind == "store" and sv_field_path(e.obj)[-1:] == ["current_cell_"]:
+                moves += 1
+                ok = any(at_end_atom(atom) is not None and tv and ev.index(bev) < i for atom, tv, bev in cond_atoms(p))
+                if not ok:
+                    unguarded.append(e)
+    if moves == 0:
+        ctx.ok(rid, E, "extend() never moves the write cursor", None, sig="extend-no-move")
+        return 1
+    if not unguarded:
+        ctx.ok(rid, E, "extend() moves the write cursor only from the end of the current block", None, sig="extend-guarded")
+        return moves
+    # the callers must establish 'cursor at the end of its block' on the *current* cursor, right before the call
+    n = 0
+    for F in ctx.db.funcs.values():
+        if not Q.calls_in(F, r"dhp::retired_array::extend$"):
+            continue
+        for p in PathSim(F, bound=4000).run():
+            ev = p.events
+            for i, e in enumerate(ev):
+                if e.kind == "call" and e.q and e.q.endswith("retired_array::extend"):
+                    n += 1
+                    now = e.obj[-1] if isinstance(e.obj, tuple) and isinstance(e.obj[-1], int) else None
+                    ok = False
+                    for atom, tv, bev in cond_atoms(p):
+                        x = at_end_atom(atom)
+                        if x is not None and tv and ev.index(bev) < i and isinstance(x[-1], int) and x[-1] == now:
+                            ok = True
+                    ctx.check(ok, rid, F, "the retired array is extended (cursor moved to the new block) only when the current write cursor is at the end of its block",
+                              e.node, detail="extend() moves the cursor unconditionally and this call site does not test the cursor as it is after the compaction "
+                              "(a value saved before the scan does not count): the skipped cells keep stale pointers that the next scan disposes again. " + reason,
+                              sig="extend-skips-cells")
+    return n
